@@ -183,6 +183,12 @@ def run(ctx):
     R_TP = ctx.rule("C12.takepend", "a value taken out of a combinator's state (buffer.take(), mem::replace) is never dropped on a path that returns Pending", floor=1)
     from p_C11 import takepend_rule
     takepend_rule(ctx, c, R_TP, set(i.get("self_adt") for i in push_impls if i.get("self_adt")), "dfir_pipes")
+    R_PR = ctx.rule("C12.phasereset", "a phase marker is reset to its phase-enabling value only under the Done edge of the downstream's answer (never on a path that can still return Pending)", floor=1)
+    from p_C11 import phasereset_rule
+    phasereset_rule(ctx, c, R_PR, set(i.get("self_adt") for i in push_impls if i.get("self_adt")))
+    R_RS = ctx.rule("C12.retrysafe", "drain loops: no own-state write between the loop head and the downstream readiness check of the same iteration", floor=4)
+    from p_C11 import retrysafe_rule
+    retrysafe_rule(ctx, c, R_RS, set(i.get("self_adt") for i in push_impls if i.get("self_adt")))
 
 
 def item_groups(c, impls):
